@@ -52,6 +52,28 @@ def run(ctx):
         hists = list(ex)
         for _ in range(6000 if ctx.thorough else 700):
             hists.append(sapi.Hist(rng).build(rng.choice([5, 10, 20, 40, 60])))
+        # tiny-gap collapse (bounds closer than the smallest normal number): every one of the six bound setters, the other bound
+        # stored first, gap = 1 / 3 / 2^40 subnormal units and exactly the smallest normal; which side moves is part of C14
+        h = sapi.hexd
+        import struct
+        def up(x, k):
+            return struct.unpack(">d", struct.pack(">q", struct.unpack(">q", struct.pack(">d", x))[0] + k))[0]
+        for base in (0.0, 1e-300, 2.0 ** -1000):
+            for k in (1, 3, 2 ** 40, 2 ** 52):
+                lo, hi = base, up(base, k)
+                for first, second in ((("set_lb", lo), ("set_ub", hi)), (("set_ub", hi), ("set_lb", lo))):
+                    for form in ("", "1", "i"):
+                        def op(nm, v, form=form):
+                            if form == "":
+                                return "%s o0 %s,%s" % (nm, h(v), h(v))
+                            if form == "1":
+                                return "%s1 o0 %s" % (nm, h(v))
+                            return "%si o0 1 %s" % (nm, h(v))
+                        hists.append(["create o0 25 2", "set_lb o0 %s,%s" % (h(-5.0), h(-5.0)), "set_ub o0 %s,%s" % (h(5.0), h(5.0)),
+                                      op(first[0], first[1]) if first[0] == "set_lb" else "set_ub o0 %s,%s" % (h(first[1]), h(first[1])),
+                                      op(second[0], second[1]), "get_lb o0", "destroy o0"])
+                        hists.append(["create o0 25 2", "set_lb o0 %s,%s" % (h(-5.0), h(-5.0)), "set_ub o0 %s,%s" % (h(5.0), h(5.0)),
+                                      "%s o0 %s,%s" % (first[0], h(first[1]), h(first[1])), op(second[0], second[1]), "destroy o0"])
         sapi.run_histories(ctx, bdir, ctx.alg, hists, "C14", "random+exhaustive")
         ctx.cov["exhaustive_short_histories"] = {"length": 3 if ctx.thorough else 2, "alphabet": na, "histories": len(ex)}
         ctx.sample({"history": hists[-1][:10]})
